@@ -4,7 +4,8 @@
    - [Den_U]: "k is the rendered signature of a consistent node of the universe whose plain value is Ret v";
    - Theorem B: [ideal_sound_fn], [ideal_root_sound];
    - Corollary C: [C01_end_to_end_lemma] - every history of top-level calls of the universe from the empty store;
-   - refutations found on the way ([plain_call_default_refuted], [marker_literal_refuted], [hv_collision_refuted]);
+   - the regression theorem of finding F30 ([plain_call_explicit_argument_tracked]) and the refutations found on the way
+     ([marker_literal_refuted], [hv_collision_refuted], ...);
    - non-vacuity: a concrete universe (section 6). *)
 From Coq Require Import List Ascii String ZArith NArith Bool Lia.
 From DDS Require Import Base.Bytes Extracted.ConstHash L0_Hash.PyVal L0_Hash.DdsHash L1_Args.ArgCtx
@@ -149,12 +150,12 @@ Section TheoremB.
       injection Hg as Hg; injection Hk as Hk; subst g0 k.
     - rewrite sana_step_SCall, (scall_ctx_site hl lines line eline a exts vs inters ch l Hi) in Hs. unfold scall_g in Hs.
       destruct (clines hl _) as [e|ph]; [discriminate Hs|]. cbn [site_named].
-      destruct (scallee_ctx_plain hv g) as [e|named]; [discriminate Hs|].
+      destruct (scallee_ctx_plain hv g _) as [e|named]; [discriminate Hs|].
       destruct (sana hv hl g _ R) as [e|[t R']] eqn:Et; [discriminate Hs|]. injection Hs as E1 E2 E3. subst.
       exists ph, named, t, R1, t. repeat split; try reflexivity. exact Et.
     - rewrite sana_step_SRef, (scall_ctx_site hl lines line line a exts vs inters ch l Hi) in Hs. unfold scall_g in Hs.
       destruct (clines hl _) as [e|ph]; [discriminate Hs|]. cbn [site_named].
-      destruct (scallee_ctx_plain hv g) as [e|named]; [discriminate Hs|].
+      destruct (scallee_ctx_plain hv g _) as [e|named]; [discriminate Hs|].
       destruct (sana hv hl g _ R) as [e|[t R']] eqn:Et; [discriminate Hs|]. injection Hs as E1 E2 E3. subst.
       exists ph, named, t, R1, t. repeat split; try reflexivity. exact Et.
     - rewrite sana_step_SKeep, (scall_ctx_site hl lines line eline a exts vs inters ch l Hi) in Hs. unfold scall_g in Hs.
@@ -172,11 +173,11 @@ Section TheoremB.
     destruct s as [line eline g args|line g ex|g|line eline p g pos kw|p].
     - rewrite sana_step_SCall in Hs. unfold scall_g in Hs.
       destruct (scall_ctx hl _ _ _ _ _ _) as [e|c]; [discriminate Hs|].
-      destruct (scallee_ctx_plain hv g) as [e|named]; [discriminate Hs|].
+      destruct (scallee_ctx_plain hv g _) as [e|named]; [discriminate Hs|].
       destruct (sana hv hl g _ R) as [e|[t R']]; [discriminate Hs|]. injection Hs as E1 E2 E3. subst. eexists. reflexivity.
     - rewrite sana_step_SRef in Hs. unfold scall_g in Hs.
       destruct (scall_ctx hl _ _ _ _ _ _) as [e|c]; [discriminate Hs|].
-      destruct (scallee_ctx_plain hv g) as [e|named]; [discriminate Hs|].
+      destruct (scallee_ctx_plain hv g _) as [e|named]; [discriminate Hs|].
       destruct (sana hv hl g _ R) as [e|[t R']]; [discriminate Hs|]. injection Hs as E1 E2 E3. subst. eexists. reflexivity.
     - rewrite sana_step_SApply in Hs. injection Hs as E1 E2 E3. subst. exists []. rewrite app_nil_r. reflexivity.
     - rewrite sana_step_SKeep in Hs. unfold scall_g in Hs.
@@ -621,14 +622,16 @@ End CorollaryC.
 (* ---------------------------------------------------------------------------------------------------------------- *)
 (* 5. refutations: what fails without the hypotheses (all by computation)                                            *)
 (* ---------------------------------------------------------------------------------------------------------------- *)
-(* 5.1 FINDING (new; reproduced on the real library).  A plain call g(5) of a function whose parameters all have
-   defaults: the analysis binds x to its default (get_arg_ctx_ast(g, [], {})), every argument is then "known", the
-   call-site context is dropped, and the explicit argument is in no signature below g.
+(* 5.1 FINDING F30 (found by this proof, reproduced on the real library, since REPAIRED by a fix in /repo; the model
+   follows the fix: Sig.unbind).  A plain call g(5) of a function whose parameters all have defaults: the analysis used to
+   bind x to its default (get_arg_ctx_ast(g, [], {})), every argument was then "known", the call-site context was dropped,
+   and the explicit argument was in no signature below g:
        def h(x): return ("h", x)
        def g(x=3): return dds.keep("/p", h, x)
        def f(): return g(5)          # edited to g(7)
-   The node of g (and of h) has the same content in both versions; the plain values differ; after evaluating the first
-   version, evaluating the second serves the stale ("h", 5).  Excluded by [call_args_ok] (field u_wf). *)
+   after evaluating the first version, the second one was served the stale ("h", 5).  With the fix a parameter bound
+   explicitly by a plain call is unknown: the call site (whose text contains the argument) is in the signature of g
+   and of everything below it.  The regression theorem on this very program: *)
 Definition rf_H (b : bytes) : bytes := b.
 Definition rf_h : fn :=
   Fn (bs "m/h") (bs "h") None [bs "def h(x):"; bs "    return ('h', x)"; bs ""] [Param (bs "x") POK None] None false
@@ -644,35 +647,26 @@ Definition rf_f5 : fn := rf_f 5 "    return g(5)".
 Definition rf_f7 : fn := rf_f 7 "    return g(7)".
 Definition rf_cfg : config := Config [Analysis; StoreInspect; Eval; StoreCommit; PathCommit] false.
 
-Definition rf_child_content (f : fn) : option content :=
-  match cana ex_hv ex_hl f ([], None) [] with
-  | inr (Content _ _ _ [c] _ _, _) => Some c
+(* the signature term of the kept node h below g, analysed from f *)
+Definition rf_kept_sig (f : fn) : option dg :=
+  match sana ex_hv ex_hl f ([], None) [] with
+  | inr (SFI _ _ _ _ _ [SFI _ _ _ _ _ [xh]], _) => Some (sfi_sig xh)
   | _ => None
   end.
 
-Example plain_call_default_refuted :
-  (* the two nodes of g have the same content (ideal value / line hashes) ... *)
-  (exists c, rf_child_content rf_f5 = Some c /\ rf_child_content rf_f7 = Some c) /\
-  (* ... they receive 5 and 7 ... *)
-  site_pv (SCall 1 1 rf_g [ELit (VInt 5)]) (Env [] [] []) = Some [RVal (VInt 5)] /\
-  site_pv (SCall 1 1 rf_g [ELit (VInt 7)]) (Env [] [] []) = Some [RVal (VInt 7)] /\
-  (* ... and have different plain values *)
-  pv_fn rf_g [RVal (VInt 5)] <> pv_fn rf_g [RVal (VInt 7)] /\
-  (* the only hypothesis of the universe that fails: *)
-  ~ call_args_ok (fn_params rf_g) [ELit (VInt 5)] /\
-  (* end to end, through the real state machine (any H gives equal keys; here the identity): evaluating the second
-     version after the first serves the stale ("h", 5) inside ("g", 7, .) *)
+Example plain_call_explicit_argument_tracked :
+  (* the kept node below g has a signature in both versions, and they differ (ideal value / line hashes) ... *)
+  (exists t5 t7, rf_kept_sig rf_f5 = Some t5 /\ rf_kept_sig rf_f7 = Some t7 /\ t5 <> t7) /\
+  (* ... the argument context of g at the call g(5): x is unknown ... *)
+  site_named ex_hv (SCall 1 1 rf_g [ELit (VInt 5)]) = inr [(bs "x", None)] /\
+  (* ... end to end, through the state machine: the second version, evaluated after the first, returns ITS plain value *)
   (let s1 := snd (dds_call rf_H None rf_cfg rf_f5 StEval [] [] st_empty) in
-   fst (dds_call rf_H None rf_cfg rf_f7 StEval [] [] s1) =
-     Ret (RTup [RVal (VStr (bs "f")); RTup [RVal (VStr (bs "g")); RVal (VInt 7);
-                                            RTup [RVal (VStr (bs "h")); RVal (VInt 5)]]]) /\
-   fst (dds_call rf_H None rf_cfg rf_f7 StEval [] [] s1) <> pv_fn rf_f7 []).
+   fst (dds_call rf_H None rf_cfg rf_f7 StEval [] [] s1) = pv_fn rf_f7 [] /\
+   pv_fn rf_f7 [] <> pv_fn rf_f5 []).
 Proof.
-  split; [eexists; split; vm_compute; reflexivity|].
-  split; [reflexivity|]. split; [reflexivity|].
-  split; [intro Hc; vm_compute in Hc; discriminate Hc|].
-  split; [intros [Hc _]; discriminate Hc|].
-  split; [vm_compute; reflexivity|intro Hc; vm_compute in Hc; discriminate Hc].
+  split.
+  - do 2 eexists. split; [vm_compute; reflexivity|]. split; [vm_compute; reflexivity|]. intro Hc. discriminate Hc.
+  - split; [vm_compute; reflexivity|]. split; [vm_compute; reflexivity|intro Hc; vm_compute in Hc; discriminate Hc].
 Qed.
 
 (* 5.2 (known: F04-marker) a literal None and the literal marker string have the same argument entry *)
